@@ -34,14 +34,14 @@ type OriginOpts struct {
 	// FollowInvoke: resolve this interface-method call through the call graph and continue
 	// in the implementations (default: an invoke is a leaf).
 	FollowInvoke func(c *ssa.Call) bool
-	MaxDepth int
+	MaxDepth     int
 }
 
 type originWalker struct {
-	p    *Prog
-	o    OriginOpts
-	out  []Origin
-	seen map[seenKey]bool
+	p           *Prog
+	o           OriginOpts
+	out         []Origin
+	seen        map[seenKey]bool
 	fieldStores map[*types.Var][]ssa.Value
 }
 
